@@ -31,15 +31,15 @@ theorem lastStatus_append (d : Nat) (a b : List UEvent) : lastStatus d (a ++ b) 
   | cons e es ih => cases e <;> simp [lastStatus, ih]
 
 /-- everything `runPrims` does, in one statement -/
-theorem runPrims_spec (env : Env) (ps : List Prim) : ∀ (st st1 : State) (evs : List UEvent) (f : Bool),
+theorem runPrims_spec (env : Env) (ps : List Prim) : ∀ (st st1 : State) (evs : List UEvent) (f : Nat),
     runPrims env st ps = (st1, evs, f) →
       st1.contentLength = st.contentLength + acceptedBytes evs ∧
       st1.writes = st.writes + writeCount evs ∧
       st1.statusCode = lastStatus st.statusCode evs ∧
       st1.err = st.err ∧ st1.set = st.set ∧
-      f = evs.any failedWrite ∧
+      (f != 0) = evs.any failedWrite ∧
       (evs.map shape) <+: ps ∧
-      (f = false → evs.map shape = ps) := by
+      (f = 0 → evs.map shape = ps) := by
   induction ps with
   | nil =>
     intro st st1 evs f h
@@ -63,12 +63,12 @@ theorem runPrims_spec (env : Env) (ps : List Prim) : ∀ (st st1 : State) (evs :
       · intro hf; simp [shape, h8 hf]
     | wr n =>
       simp only [runPrims, stepPrim] at h
-      cases hfail : (env st.writes).failed with
-      | true =>
+      cases hfail : (env st.writes).err with
+      | succ t =>
         simp only [hfail, Prod.mk.injEq] at h
         obtain ⟨rfl, rfl, rfl⟩ := h
         simp [acceptedBytes, writeCount, lastStatus, failedWrite, shape]
-      | false =>
+      | zero =>
         simp only [hfail] at h
         generalize hr : runPrims env { st with contentLength := st.contentLength + (env st.writes).accepted, writes := st.writes + 1 } ps = r at h
         obtain ⟨st2, es, f2⟩ := r
@@ -77,22 +77,56 @@ theorem runPrims_spec (env : Env) (ps : List Prim) : ∀ (st st1 : State) (evs :
         obtain ⟨h1, h2, h3, h4, h5, h6, h7, h8⟩ := ih _ _ _ _ hr
         simp only at h1 h2 h3 h4 h5
         refine ⟨by simp [acceptedBytes, h1]; omega, by simp [writeCount, h2]; omega, by simpa [lastStatus] using h3, h4, h5,
-          by simpa [failedWrite, hfail] using h6, ?_, ?_⟩
+          by simpa [failedWrite] using h6, ?_, ?_⟩
         · simpa [shape] using h7
         · intro hf; simp [shape, h8 hf]
+
+/-- the error `runPrims` returns is the one of the first (and only) failed write among the events -/
+theorem runPrims_firstFailure (env : Env) (ps : List Prim) : ∀ (st st1 : State) (evs : List UEvent) (f : Nat),
+    runPrims env st ps = (st1, evs, f) → firstFailure evs = if f = 0 then none else some f := by
+  induction ps with
+  | nil =>
+    intro st st1 evs f h
+    simp only [runPrims, Prod.mk.injEq] at h
+    obtain ⟨rfl, rfl, rfl⟩ := h
+    rfl
+  | cons p ps ih =>
+    intro st st1 evs f h
+    cases p with
+    | hdr s =>
+      simp only [runPrims, stepPrim] at h
+      generalize hr : runPrims env { st with statusCode := s } ps = r at h
+      obtain ⟨st2, es, f2⟩ := r
+      simp only [Prod.mk.injEq] at h
+      obtain ⟨rfl, rfl, rfl⟩ := h
+      simpa [firstFailure] using ih _ _ _ _ hr
+    | wr n =>
+      simp only [runPrims, stepPrim] at h
+      cases hfail : (env st.writes).err with
+      | succ t =>
+        simp only [hfail, Prod.mk.injEq] at h
+        obtain ⟨rfl, rfl, rfl⟩ := h
+        simp [firstFailure]
+      | zero =>
+        simp only [hfail] at h
+        generalize hr : runPrims env { st with contentLength := st.contentLength + (env st.writes).accepted, writes := st.writes + 1 } ps = r at h
+        obtain ⟨st2, es, f2⟩ := r
+        simp only [Prod.mk.injEq] at h
+        obtain ⟨rfl, rfl, rfl⟩ := h
+        simpa [firstFailure] using ih _ _ _ _ hr
 
 /-- the write events carry the results of the environment at consecutive indices from `k` -/
 def faithful (env : Env) : Nat → List UEvent → Bool
   | _, [] => true
   | k, .header _ :: es => faithful env k es
-  | k, .write _ a f :: es => (a == (env k).accepted && f == (env k).failed) && faithful env (k + 1) es
+  | k, .write _ a f :: es => (a == (env k).accepted && f == (env k).err) && faithful env (k + 1) es
 
 /-- a failed write is the last event -/
 def failsOnlyLast : List UEvent → Bool
   | [] => true
   | e :: es => (!failedWrite e || es.isEmpty) && failsOnlyLast es
 
-theorem runPrims_env (env : Env) (ps : List Prim) : ∀ (st st1 : State) (evs : List UEvent) (f : Bool),
+theorem runPrims_env (env : Env) (ps : List Prim) : ∀ (st st1 : State) (evs : List UEvent) (f : Nat),
     runPrims env st ps = (st1, evs, f) → faithful env st.writes evs = true ∧ failsOnlyLast evs = true := by
   induction ps with
   | nil =>
@@ -114,12 +148,12 @@ theorem runPrims_env (env : Env) (ps : List Prim) : ∀ (st st1 : State) (evs : 
       simp [faithful, failsOnlyLast, failedWrite, h1, h2]
     | wr n =>
       simp only [runPrims, stepPrim] at h
-      cases hfail : (env st.writes).failed with
-      | true =>
+      cases hfail : (env st.writes).err with
+      | succ t =>
         simp only [hfail, Prod.mk.injEq] at h
         obtain ⟨rfl, rfl, rfl⟩ := h
         simp [faithful, failsOnlyLast, hfail]
-      | false =>
+      | zero =>
         simp only [hfail] at h
         generalize hr : runPrims env { st with contentLength := st.contentLength + (env st.writes).accepted, writes := st.writes + 1 } ps = r at h
         obtain ⟨st2, es, f2⟩ := r
@@ -149,7 +183,7 @@ theorem envAccepted_faithful (env : Env) : ∀ (evs : List UEvent) (k : Nat), fa
     write event, and it is the last write -/
 theorem faithful_failed (env : Env) : ∀ (evs : List UEvent) (k j : Nat), faithful env k evs = true →
     failsOnlyLast evs = true → k ≤ j → j < k + writeCount evs → (env j).failed = true →
-      evs.any failedWrite = true ∧ j + 1 = k + writeCount evs := by
+      evs.any failedWrite = true ∧ j + 1 = k + writeCount evs ∧ firstFailure evs = some (env j).err := by
   intro evs
   induction evs with
   | nil => intro k j _ _ h1 h2; simp [writeCount] at h2; omega
@@ -158,24 +192,79 @@ theorem faithful_failed (env : Env) : ∀ (evs : List UEvent) (k j : Nat), faith
     cases e with
     | header s =>
       have := ih k j (by simpa [faithful] using hf) (by simp [failsOnlyLast] at hl; exact hl.2) h1 (by simpa [writeCount] using h2) hj
-      simpa [writeCount, failedWrite] using this
+      simpa [writeCount, failedWrite, firstFailure] using this
     | write n a f =>
       simp only [faithful, Bool.and_eq_true, beq_iff_eq] at hf
       simp only [failsOnlyLast, Bool.and_eq_true, Bool.or_eq_true, Bool.not_eq_eq_eq_not, Bool.not_true] at hl
       simp only [writeCount] at h2
       by_cases hjk : j = k
       · subst hjk
-        have hff : f = true := by rw [hf.1.2]; exact hj
-        subst hff
+        have hff : (f != 0) = true := by rw [hf.1.2]; exact hj
         have hes : es = [] := by
           rcases hl.1 with h | h
-          · simp [failedWrite] at h
+          · simp [failedWrite, hff] at h
           · simpa using h
         subst hes
-        simp [failedWrite, writeCount]
+        have hne : (env j).err ≠ 0 := by simpa [WRes.failed] using hj
+        simp [failedWrite, writeCount, firstFailure, hf.1.2, hne]
       · have := ih (k + 1) j hf.2 hl.2 (by omega) (by omega) hj
-        refine ⟨by simp [this.1], ?_⟩
-        simp only [writeCount]; omega
+        have hne : es ≠ [] := by
+          intro he; rw [he] at this; simp at this
+        have hf0 : (f != 0) = false := by
+          rcases hl.1 with h | h
+          · simpa [failedWrite] using h
+          · exact absurd (List.isEmpty_iff.mp h) hne
+        refine ⟨by simp [this.1], ?_, ?_⟩
+        · simp only [writeCount]; omega
+        · simp only [firstFailure, hf0]; exact this.2.2
+
+/-- a failed write among the events has an error, and it is a non-nil one -/
+theorem firstFailure_of_any : ∀ (evs : List UEvent), evs.any failedWrite = true →
+    ∃ t, t ≠ 0 ∧ firstFailure evs = some t := by
+  intro evs
+  induction evs with
+  | nil => intro h; simp at h
+  | cons e es ih =>
+    intro h
+    cases e with
+    | header s => simpa [firstFailure] using ih (by simpa [failedWrite] using h)
+    | write n a f =>
+      by_cases hf : f = 0
+      · subst hf
+        simpa [firstFailure] using ih (by simpa [failedWrite] using h)
+      · exact ⟨f, hf, by simp [firstFailure, hf]⟩
+
+theorem firstFailure_none_of_not_any : ∀ (evs : List UEvent), evs.any failedWrite = false → firstFailure evs = none := by
+  intro evs
+  induction evs with
+  | nil => intro _; rfl
+  | cons e es ih =>
+    intro h
+    cases e with
+    | header s => simpa [firstFailure] using ih (by simpa [failedWrite] using h)
+    | write n a f =>
+      simp only [List.any_cons, failedWrite, Bool.or_eq_false_iff] at h
+      simp only [firstFailure, h.1]
+      exact ih h.2
+
+/-! ### the error a call returns -/
+
+theorem Plan.ret_isErr (p : Plan) (made werr : Nat) : (p.ret made werr).isErr = (werr != 0 || p.ownErr) := by
+  unfold Plan.ret
+  by_cases h0 : werr = 0
+  · subst h0; cases p.ownErr <;> rfl
+  · simp only [h0, if_false]
+    split <;> simp [Ret.isErr, h0]
+
+/-- a failed write: the call returns the writer's error, or — only when the marshaller has an error
+    of its own — that one -/
+theorem Plan.ret_cases (p : Plan) (made : Nat) {werr : Nat} (h0 : werr ≠ 0) :
+    p.ret made werr = .writer werr ∨ (p.ownErr = true ∧ p.ret made werr = .other) := by
+  unfold Plan.ret
+  simp only [h0, if_false]
+  split
+  · rename_i h; simp only [Bool.and_eq_true] at h; exact Or.inr ⟨h.1, rfl⟩
+  · exact Or.inl rfl
 
 /-- no `WriteHeader` among the events: the last status is unchanged -/
 theorem lastStatus_all_wr (d : Nat) : ∀ (es : List UEvent), (es.map shape).all Prim.isWr = true → lastStatus d es = d := by
@@ -244,23 +333,32 @@ theorem primDiscipline_sublist {a b : List Prim} (h : a.Sublist b) (hb : primDis
       exact all_wr_of_sublist h' hb
 
 /-- everything one high-level call does -/
-theorem exec_spec (env : Env) (st st1 : State) (c : Call) (evs : List UEvent) (e : Bool)
+theorem exec_spec (env : Env) (st st1 : State) (c : Call) (evs : List UEvent) (e : Ret)
     (h : exec env st c = (st1, evs, e)) :
       st1.contentLength = st.contentLength + acceptedBytes evs ∧
       st1.writes = st.writes + writeCount evs ∧
       st1.statusCode = lastStatus st.statusCode evs ∧
       st1.err = c.errAfter st.err ∧ st1.set = c.next st.set ∧
-      e = (evs.any failedWrite || (c.plan st.set).ownErr) ∧
+      e.isErr = (evs.any failedWrite || (c.plan st.set).ownErr) ∧
       (evs.map shape) <+: (c.plan st.set).prims ∧
-      faithful env st.writes evs = true ∧ failsOnlyLast evs = true := by
+      faithful env st.writes evs = true ∧ failsOnlyLast evs = true ∧
+      e = (c.plan st.set).ret (writeCount evs) ((firstFailure evs).getD 0) := by
   unfold exec at h
   simp only [Prod.mk.injEq] at h
   obtain ⟨rfl, rfl, rfl⟩ := h
   have hr : runPrims env { st with err := c.errAfter st.err, set := c.next st.set } (c.plan st.set).prims = (_, _, _) := rfl
   obtain ⟨h1, h2, h3, h4, h5, h6, h7, _⟩ := runPrims_spec env _ _ _ _ _ hr
   obtain ⟨h9, h10⟩ := runPrims_env env _ _ _ _ _ hr
+  have h11 := runPrims_firstFailure env _ _ _ _ _ hr
   simp only at h1 h2 h3 h4 h5 h9
-  exact ⟨h1, h2, h3, h4, h5, by rw [h6], h7, h9, h10⟩
+  refine ⟨h1, h2, h3, h4, h5, by rw [Plan.ret_isErr, h6], h7, h9, h10, ?_⟩
+  have hw : (runPrims env { st with err := c.errAfter st.err, set := c.next st.set } (c.plan st.set).prims).1.writes - st.writes =
+      writeCount (runPrims env { st with err := c.errAfter st.err, set := c.next st.set } (c.plan st.set).prims).2.1 := by
+    rw [h2]; exact Nat.add_sub_cancel_left _ _
+  rw [hw, h11]
+  split
+  · rename_i h0; rw [h0]; rfl
+  · rfl
 
 /-- the invariant that ties the Response fields to what the underlying writer received so far -/
 def Inv (st : State) (before : List UEvent) : Prop :=
@@ -268,7 +366,7 @@ def Inv (st : State) (before : List UEvent) : Prop :=
 
 theorem Inv_init (s : Settings) : Inv (State.init s) [] := by simp [Inv, State.init, acceptedBytes, lastStatus]
 
-theorem Inv_step {env : Env} {st st1 : State} {c : Call} {evs : List UEvent} {e : Bool} {before : List UEvent}
+theorem Inv_step {env : Env} {st st1 : State} {c : Call} {evs : List UEvent} {e : Ret} {before : List UEvent}
     (h : exec env st c = (st1, evs, e)) (hi : Inv st before) : Inv st1 (before ++ evs) := by
   obtain ⟨h1, _, h3, _⟩ := exec_spec env st st1 c evs e h
   exact ⟨by rw [h1, hi.1, acceptedBytes_append], by rw [h3, hi.2, lastStatus_append]⟩
@@ -319,7 +417,7 @@ theorem run_callsOK (coding : Bool) (env : Env) : ∀ (calls : List Call) (st : 
     generalize hr : exec env st c = r
     obtain ⟨st1, evs, e⟩ := r
     have hi := Inv_step hr h
-    obtain ⟨_, _, _, _, _, h6, _⟩ := exec_spec env st st1 c evs e hr
+    obtain ⟨_, _, _, _, _, h6, _, _, _, h10⟩ := exec_spec env st st1 c evs e hr
     simp only [List.map_cons, callsOK, CallResult.obs, Bool.and_eq_true]
     refine ⟨?_, ih st1 _ hi⟩
     simp only [callOK, Bool.and_eq_true]
@@ -328,7 +426,14 @@ theorem run_callsOK (coding : Bool) (env : Env) : ∀ (calls : List Call) (st : 
     | false => simp
     | true =>
       have : st1.ContentLength = acceptedBytes (before ++ evs) := hi.1
-      simp [h6, hany, this]
+      obtain ⟨t, ht0, ht⟩ := firstFailure_of_any evs hany
+      have hid : ((c.plan st.set).ownErr || (firstFailure evs).map Ret.writer == some e) = true := by
+        rw [ht] at h10 ⊢
+        rcases Plan.ret_cases (c.plan st.set) (writeCount evs) ht0 with h | h
+        · simp [h10, h]
+        · simp [h.1]
+      simp only [ObsCall.retErr, h6, hany, this, hid]
+      simp
 
 /-- what the underlying writer received is a subsequence of the planned calls -/
 theorem events_sublist_planned (env : Env) : ∀ (calls : List Call) (st : State),
@@ -352,7 +457,8 @@ theorem run_error (env : Env) : ∀ (calls : List Call) (st : State) (k : Nat),
     st.contentLength = envAccepted env st.writes → st.writes ≤ k → k < (finalState env st calls).writes →
     (env k).failed = true →
       ∃ r ∈ run env st calls, r.firstWrite ≤ k ∧ k + 1 = r.firstWrite + writeCount r.events ∧
-        r.events.any failedWrite = true ∧ r.retErr = true ∧ r.length = envAccepted env (k + 1) := by
+        r.events.any failedWrite = true ∧ r.retErr = true ∧ r.length = envAccepted env (k + 1) ∧
+        (r.ret = .writer (env k).err ∨ (r.ownErr = true ∧ r.ret = .other)) := by
   intro calls
   induction calls with
   | nil => intro st k _ h1 h2 _; simp [finalState] at h2; omega
@@ -361,16 +467,37 @@ theorem run_error (env : Env) : ∀ (calls : List Call) (st : State) (k : Nat),
     simp only [finalState, run] at h2 ⊢
     generalize hr : exec env st c = r at h2 ⊢
     obtain ⟨st1, evs, e⟩ := r
-    obtain ⟨e1, e2, _, _, _, e6, _, e8, e9⟩ := exec_spec env st st1 c evs e hr
+    obtain ⟨e1, e2, _, _, _, e6, _, e8, e9, e10⟩ := exec_spec env st st1 c evs e hr
     have hc1 : st1.contentLength = envAccepted env st1.writes := by
       rw [e1, e2, envAccepted_faithful env evs st.writes e8, hc]
     by_cases hk : k < st1.writes
-    · obtain ⟨ha, hl⟩ := faithful_failed env evs st.writes k e8 e9 h1 (by omega) hf
-      refine ⟨_, List.mem_cons_self, h1, hl, ha, by simp [e6, ha], ?_⟩
-      simp only [State.ContentLength]
-      rw [hc1, e2, hl]
+    · obtain ⟨ha, hl, hff⟩ := faithful_failed env evs st.writes k e8 e9 h1 (by omega) hf
+      have hne : (env k).err ≠ 0 := by simpa [WRes.failed] using hf
+      refine ⟨_, List.mem_cons_self, h1, hl, ha, by simp [CallResult.retErr, e6, ha], ?_, ?_⟩
+      · simp only [State.ContentLength]
+        rw [hc1, e2, hl]
+      · simp only
+        rw [e10, hff]
+        exact Plan.ret_cases _ _ hne
     · obtain ⟨r, hr', h⟩ := ih st1 k hc1 (by omega) h2 hf
       exact ⟨r, List.mem_cons_of_mem _ hr', h⟩
+
+/-- in a sequence in which every entity marshals no call has an error of its own -/
+theorem run_ownErr_clean (env : Env) : ∀ (calls : List Call) (st : State), marshalClean st.set calls = true →
+    ∀ r ∈ run env st calls, r.ownErr = false := by
+  intro calls
+  induction calls with
+  | nil => intro st _ r h; simp [run] at h
+  | cons c cs ih =>
+    intro st hm r h
+    simp only [marshalClean, Bool.and_eq_true, Bool.not_eq_eq_eq_not, Bool.not_true] at hm
+    simp only [run] at h
+    generalize hr : exec env st c = x at h
+    obtain ⟨st1, evs, e⟩ := x
+    obtain ⟨_, _, _, _, e5, _⟩ := exec_spec env st st1 c evs e hr
+    rcases List.mem_cons.mp h with h | h
+    · subst h; exact hm.1
+    · exact ih st1 (by rw [e5]; exact hm.2) r h
 
 /-- per call: a failed write makes the call return an error and is the last thing it does -/
 theorem run_error_events (env : Env) : ∀ (calls : List Call) (st : State), ∀ r ∈ run env st calls,
@@ -383,10 +510,10 @@ theorem run_error_events (env : Env) : ∀ (calls : List Call) (st : State), ∀
     simp only [run] at h
     generalize hr : exec env st c = x at h
     obtain ⟨st1, evs, e⟩ := x
-    obtain ⟨_, _, _, _, _, e6, _, _, e9⟩ := exec_spec env st st1 c evs e hr
+    obtain ⟨_, _, _, _, _, e6, _, _, e9, _⟩ := exec_spec env st st1 c evs e hr
     rcases List.mem_cons.mp h with h | h
     · subst h
-      exact ⟨e9, fun ha => by simp [e6, ha]⟩
+      exact ⟨e9, fun ha => by simp [CallResult.retErr, e6, ha]⟩
     · exact ih st1 r h
 
 end Resp
